@@ -159,6 +159,12 @@ def gen_fn(item, src_text, stripped, relfile, log, dropped_hints, env):
     qual = item.get('label', name)
 
     rules = list(item.get('rules', []))
+    if item.get('engine') and item.get('r3'):
+        from . import rules as RL
+        try:
+            body = RL.r3_with(body, log, body_line, qual, True)
+        except RL.UnsupportedConstruct as e:
+            raise ExtractError('unsupported construct in %s: %s' % (qual, e))
     sig = _apply_rules(sig, item.get('sig_rules', []) + rules, log, sig_line, qual)
     body = _apply_rules(body, item.get('body_rules', []) + rules, log, body_line, qual)
     if item.get('engine'):
@@ -280,11 +286,6 @@ def engine_rewrite(item, sig, body, env, log, sig_line, body_line, qual):
     state = [f for f in fields if not is_config_type(ftype[f])]
     split = env['split']
     me = split.get((item['engine'], item['name']))
-    if item.get('r3'):
-        try:
-            body = RL.r3_with(body, log, body_line, qual, True)
-        except RL.UnsupportedConstruct as e:
-            raise ExtractError('unsupported construct in %s: %s' % (qual, e))
     guards = RL.find_guard_locals(sig + body)
     rl = []
     # calls to split helpers
